@@ -27,7 +27,8 @@ def floors(m, tier):
     return {"typed sids": (m.counters.get("typed", 0), BUDGET[tier] // 3),
             "pairs": (m.counters.get("pairs", 0), 10000),
             "query round trips": (m.counters.get("query_rt", 0), 1000),
-            "forced same-string pairs": (m.counters.get("same_string_diff_type_pairs", 0), 20)}
+            "forced same-string pairs": (m.counters.get("same_string_diff_type_pairs", 0), 20),
+            "values containing ':'": (m.counters.get("colon_in_value", 0), 100)}
 
 
 def run(snap, tier, seed, t0, replay):
@@ -141,6 +142,15 @@ def worker(args):
         x = check_one(rec, model, Sid, s, rng)
         if it % 1999 == 0 and x is not None:
             rec.sample({"string": s, "uri": x.uri, "query": x.as_query()})
+        if rng.random() < 0.06:
+            # a value containing ':' (namespaced names; also one that repeats the Sid's own type name): only reachable through a uri
+            segs = vocab.valid_segments(t, rng)
+            opens = [i for i in range(t.nseg) if vocab.info[t.name][i]["open"]]
+            if opens and not model.is_search_string("/".join(segs)):
+                i = rng.choice(opens)
+                segs[i] = rng.choice([t.name + ":" + segs[i], "ns:" + segs[i], segs[i] + ":", model.templates[0].name + ":x"])
+                rec.count("colon_in_value")
+                y = check_one(rec, model, Sid, t.name + ":" + "/".join(segs), rng, forced=True)
         if x is not None:
             batch.append(x)
             # forced-type twins with the same string
